@@ -34,6 +34,7 @@ type c03Plan struct {
 	LateAtMs []int       `json:"late_at_ms"` // arrivals, relative to the command start
 	ResumeMs int         `json:"resume_ms"`  // pause/stop: resume this long after the command returned; 0 = never
 	Stale    string      `json:"stale"`      // "" | entry | after-gate: a request parked there across the command (known-finding shapes)
+	RolloutStopped bool  `json:"rollout_stopped"` // `rollout stop` is issued after the flights started: rollout targets stay installed (and busy)
 }
 
 func c03Gen(t *rapid.T) c03Plan {
@@ -62,6 +63,7 @@ func c03Gen(t *rapid.T) c03Plan {
 	if p.Cmd == "pause" || p.Cmd == "stop" {
 		p.ResumeMs = rapid.SampledFrom([]int{0, 1, 100, 700}).Draw(t, "resume")
 	}
+	p.RolloutStopped = p.Rollout > 0 && p.Cmd != "rollout-redeploy" && rapid.IntRange(0, 2).Draw(t, "rollout-stopped") == 0
 	if rapid.IntRange(0, 9).Draw(t, "stale") == 0 {
 		p.Stale = rapid.SampledFrom([]string{"entry", "after-gate"}).Draw(t, "stale-at")
 	}
@@ -193,6 +195,14 @@ func c03RunMode(t *testing.T, p c03Plan, mode string) (res vfResult) {
 			})
 		}
 		synctest.Wait()
+		if p.RolloutStopped {
+			// the split ends, the rollout targets stay installed with whatever they are serving
+			if err := r.StopRollout("svc"); err != nil {
+				res.failf("setup-failed", "rollout stop: %v", err)
+				return
+			}
+			res.label("rollout-stopped-before-command")
+		}
 		if d := tc - w.now(); d > 0 {
 			time.Sleep(d)
 		}
@@ -232,7 +242,7 @@ func c03RunMode(t *testing.T, p c03Plan, mode string) (res vfResult) {
 				synctest.Wait()
 			}
 			req := vfNewRequest("GET", "svc.test", "/late", &vfCtl{ID: fmt.Sprintf("late%d", i)}, nil)
-			ck := p.Rollout > 0 && i%2 == 1
+			ck := p.Rollout > 0 && i%2 == 1 && !p.RolloutStopped
 			if ck {
 				req.Header.Set("Cookie", RolloutCookieName+"=v")
 			}
